@@ -16,6 +16,16 @@ CHECKS = [
              "admissibility predicate adm(shape) is what C12 proves of fitted models; known finding C11-edge excluded by its witness class",
      "not_covered": ["floating-point rounding of (m - c) + c in the additive identity", "coefficients outside adm(shape) (hand-written parameter files)"],
      },
+    {"id": "C12", "level": "proof", "modules": ["contracts.C12_refine"], "bounded": [],
+     "technique": "deductive verification: sidecar contracts on the real source, VCs by symbolic execution (pyvc), z3",
+     "text": "Post-processing of the optimiser's result: for every raw vector inside the box the fit functions build and every "
+             "temperature, the real _set_model_key/_refine_model/reduce_model/from_np_arrays chain yields named coefficients that "
+             "satisfy the admissibility predicate adm(shape) (order, range, slope signs, smoothing range, type<->fields), and the "
+             "stored coefficients evaluate to the curve the objective scored (curve-preservation lemma).",
+     "note": "the optimiser is assumed to return a point inside its box (NLopt/SciPy are outside the verifier's reach); floats as reals; "
+             "known finding C12-H excluded by its witness class",
+     "not_covered": ["that the optimiser honours its bounds", "base load within the observed usage range beyond the quantile box", "behaviour of the fit on data"],
+     },
 ]
 _NOT_BUILT = "machinery for this property is not built yet (see DESIGN.md §7 build order); not claimed"
 NOT_APPLICABLE = [{"property_id": f"C{n:02d}", "reason": _NOT_BUILT} for n in range(1, 21) if n != 15 and f"C{n:02d}" not in {c["id"] for c in CHECKS}] + [
